@@ -1,7 +1,7 @@
 (* C04 - Checked join never escapes, replaces or re-roots the base path. *)
 From Coq Require Import List NArith Bool.
 Import ListNotations.
-From TP Require Import Core CoreProofs Path Unix Win Spec UnixProofs WinProofs C02Proofs C04Proofs GenJoin WinSimple.
+From TP Require Import Core CoreProofs Path Unix Win Spec UnixProofs WinProofs C02Proofs C04Proofs GenJoin WinSimple WinExtend WinBare WinVerbJoin.
 
 (* the decision: a checked push either fails, leaving the base byte-for-byte unchanged, or
    succeeds with exactly the unchecked join; which of the two is the scan over the components
@@ -70,13 +70,38 @@ Print Assumptions C04_windows_decision_spec.
 Print Assumptions C04_windows_success_iff.
 Print Assumptions C04_windows_contains_plain.
 Print Assumptions C04_windows_contains_disk.
-(* C04_windows_contains_partial: containment for bases with a UNC / verbatim / device-namespace prefix
-   (implicit root after a bare prefix, verbatim fold) is not proved; it is decided on every explored
-   (base, p) pair by oracle_c04 itself, over the specification only (Oracles.c04_contains: the components of
-   the result begin with the components of the base, and for a non-verbatim base they are the base, the
-   root a bare non-disk prefix implies, and what p adds).  Two input classes fail it on the unchanged crate
-   and are recorded findings: the base of exactly two separators (D10) and the base that is the verbatim
-   prefix named exactly "UNC" (D17): in both, appending a separator and a name spells a longer prefix. *)
+(* ... and for the bases with a UNC, device-namespace or drive prefix followed by a non-empty rest
+   (WinExtend.v: such a prefix is read the same way whatever is appended after the rest) *)
+Theorem C04_windows_contains_prefixed : forall (a : list N) (k : wprefix) (r p : list N),
+  wprefix_grammar a = Some (k, r) -> k_verbatim k = false -> r <> [] -> p <> [] ->
+  w_scan (wspec p) O = None ->
+  w_push_checked a p = (w_push a p, None) /\ wspec (w_push a p) = wspec a ++ map WC (gadded (wsep true) p).
+Proof. exact w_push_checked_contains_prefixed. Qed.
+Print Assumptions C04_windows_contains_prefixed.
+(* ... and for the bare prefix (a UNC prefix with a non-empty share or a device-namespace prefix, nothing after
+   it): the result is the base, the root such a prefix implies, and what p adds (WinBare.v) *)
+Theorem C04_windows_contains_bare : forall (a : list N) (k : wprefix) (p : list N),
+  wprefix_grammar a = Some (k, []) -> k_verbatim k = false -> complete k -> is_disk k = false ->
+  p <> [] -> w_scan (wspec p) O = None ->
+  w_push_checked a p = (w_push a p, None) /\ wspec (w_push a p) = wspec a ++ WC Root :: map WC (gadded (wsep true) p).
+Proof. exact w_push_checked_contains_bare. Qed.
+Print Assumptions C04_windows_contains_bare.
+(* ... and for the bases with a VERBATIM prefix followed by a root (WinVerbJoin.v): the join folds p's components
+   into the base's, and what the scan accepts (no prefix, no root, no ".." outnumbering the names before it)
+   never reaches below the base: the result is the base's components followed by names *)
+Theorem C04_windows_contains_verbatim : forall (a : list N) (k : wprefix) (r p : list N),
+  wprefix_grammar a = Some (k, r) -> k_verbatim k = true -> k <> Verbatim [85; 78; 67] ->
+  sep_headed (s_wsep (s_norm a)) r -> p <> [] -> w_scan (wspec p) O = None ->
+  w_push_checked a p = (w_push a p, None) /\
+  exists added, Forall (fun c => k_is_normal c = true) added /\ wspec (w_push a p) = wspec a ++ added.
+Proof. exact w_push_checked_contains_verbatim. Qed.
+Print Assumptions C04_windows_contains_verbatim.
+(* C04_windows_contains_partial: what is left unproved: a verbatim prefix with nothing after it or followed by a
+   name without a root, and the two recorded findings -- the base of exactly two separators (D10) and the
+   verbatim prefix named exactly "UNC" (D17): in both, appending a separator and a name spells a longer prefix.
+   (A \\server with an empty share behaves the same way; it is not a well-formed path in Spec.wf_comps.)  Those
+   are decided on every explored (base, p) pair by oracle_c04 itself, over the specification only
+   (Oracles.c04_contains). *)
 Lemma C04_windows_d10_refuted :
   w_push_checked [92;92] [98] = ([92;92;98], None) /\ wspec [92;92] = [WC Root] /\
   wspec [92;92;98] = [WPrefix [92;92;98] (UNC [98] [])].
